@@ -13,6 +13,7 @@ from typing import TYPE_CHECKING, Any
 from jedi.cache import memoize_method, time_cache
 from jedi.inference.compiled.subprocess import CompiledSubprocess, \
     InferenceStateSameProcess, InferenceStateSubprocess
+from jedi.api.exceptions import InternalError
 
 import parso
 
@@ -79,10 +80,19 @@ class Environment(_BaseEnvironment):
         if self._subprocess is not None and not self._subprocess.is_crashed:
             return self._subprocess
 
+        # A helper started to replace a crashed one runs an executable that has
+        # already answered the version handshake once: if it dies now, that is a
+        # crash (InternalError), not an invalid environment.
+        is_restart = self._subprocess is not None
         try:
             self._subprocess = CompiledSubprocess(self._start_executable,
                                                   env_vars=self._env_vars)
             info = self._subprocess._send(None, _get_info)
+        except InternalError:
+            if is_restart:
+                raise
+            raise InvalidPythonEnvironment(
+                "Could not get version information for %r" % self._start_executable)
         except Exception as exc:
             raise InvalidPythonEnvironment(
                 "Could not get version information for %r: %r" % (
